@@ -25,6 +25,9 @@ func init() {
 }
 
 // reviewed success results that are non-nil for a reason no structural rule sees
+// packages whose combinator shapes could not be inferred completely in this run
+var shapeUnknownPkg = map[string]bool{}
+
 var reviewedNonNil = map[string]string{
 	"(*internal/ebnf/parser.Parser).ParseAndBuildAST": "the value is popped from the node stack after Parse returned nil; ACCEPT is only reached after the start production was reduced, whose callback pushed an interior node (LR invariant, R4.1/R4.5)",
 	"(*internal/ebnf/parser.Parser).ParseAndEvaluate": "the value is popped from the value stack after Parse returned nil; the last reduction pushed a non-nil *lr.Value (fresh allocation in the production callback)",
@@ -83,6 +86,11 @@ func runC14(c *Ctx) {
 	for _, pk := range []string{"internal/regex/parser/nfa", "internal/regex/parser/ast"} {
 		for pos := range checkCombinatorShapes(c, "R14.2", pk) {
 			covered[pos] = true
+		}
+		if shapeIncomplete[pk] {
+			if p := c.Pkg(pk); p != nil {
+				shapeUnknownPkg[p.PkgPath] = true
+			}
 		}
 	}
 	// (D) REDUCE parameters index productions
@@ -187,6 +195,10 @@ func runC14(c *Ctx) {
 					fromParam = derivesFromParam(x.X, 0, map[ssa.Value]bool{})
 					if fromParam {
 						c.Undecided("R14.2", akey, x.Pos(), "the asserted value comes from a parameter: what the callers pass decides it, and no rule follows it here")
+						continue
+					}
+					if shapeUnknownPkg[fnPkgPath(f)] {
+						c.Undecided("R14.2", akey, x.Pos(), "the shapes of the combinator results could not all be inferred (an expression was not understood), so the assertions of this package's mappers are not decided")
 						continue
 					}
 					c.Fail("R14.2", akey, x.Pos(),
@@ -522,6 +534,31 @@ func checkIndexSite(c *Ctx, f *ssa.Function, in ssa.Instruction, x, idx ssa.Valu
 		if k, ok := idx.(*ssa.Const); ok {
 			if n := k.Int64(); n >= 0 && n < arr.Len() {
 				return // compiler-checked
+			}
+		}
+	}
+	// a constant index into a slice that was just made with a constant length: make([]T, n, c)[k], k < n
+	if k, ok := idx.(*ssa.Const); ok && k.Value != nil && k.Int64() >= 0 {
+		switch m := x.(type) {
+		case *ssa.MakeSlice:
+			if n, ok := m.Len.(*ssa.Const); ok && n.Value != nil && k.Int64() < n.Int64() {
+				c.Pass("R14.2", key, in.Pos(), "constant index below the constant length of a fresh slice")
+				return
+			}
+		case *ssa.Slice:
+			if al, ok := m.X.(*ssa.Alloc); ok {
+				if arr, ok := al.Type().Underlying().(*types.Pointer).Elem().Underlying().(*types.Array); ok {
+					n := arr.Len()
+					if h, ok := m.High.(*ssa.Const); ok && h.Value != nil {
+						n = h.Int64()
+					} else if m.High != nil {
+						n = -1
+					}
+					if (m.Low == nil || isConstInt(m.Low, 0)) && k.Int64() < n {
+						c.Pass("R14.2", key, in.Pos(), "constant index below the constant length of a fresh slice")
+						return
+					}
+				}
 			}
 		}
 	}
@@ -1077,6 +1114,19 @@ func checkNilSuccess(c *Ctx, ri *reachInfo) {
 				continue
 			}
 			if !isNilConst(retOperand(ret, 1)) {
+				// `return helper(...)`: both results are what a function of the module returns; its success returns count
+				if e0, ok := retOperand(ret, 0).(*ssa.Extract); ok {
+					if e1, ok := retOperand(ret, 1).(*ssa.Extract); ok && e0.Tuple == e1.Tuple && e0.Index == 0 && e1.Index == 1 {
+						if call, ok := e0.Tuple.(*ssa.Call); ok {
+							if callee := call.Call.StaticCallee(); callee != nil && strings.HasPrefix(fnPkgPath(callee), modPath) && len(callee.Blocks) > 0 {
+								if valueNonNilByConstruction(call, 0) {
+									n++
+									c.Pass("R14.4", "success return of "+shortFn(f)+" carries a result", ret.Pos(), "the results of "+shortFn(callee)+" are returned as they are, and its success returns carry a result")
+								}
+							}
+						}
+					}
+				}
 				continue
 			}
 			n++
@@ -1106,7 +1156,7 @@ func checkNilSuccess(c *Ctx, ri *reachInfo) {
 			c.Check("R14.4", "success return of "+shortFn(f)+" carries a result", ret.Pos(), good, "a (nil, nil) return is possible: "+why)
 		}
 		if n == 0 {
-			c.Fail("R14.4", "entry point "+shortFn(f)+" has a success return", f.Pos(), "no return with a nil error found")
+			c.Undecided("R14.4", "entry point "+shortFn(f)+" has a success return", f.Pos(), "no return with a constant nil error was found: the results are passed on from somewhere this rule does not follow")
 		}
 	}
 }
